@@ -79,6 +79,21 @@ pub fn generate(seed: u64, index: u64, thorough: bool) -> Scenario {
         });
     }
     add_zero_sign_pairs(&mut sc, &mut Rng::new(mix(seed, "C10-zero-sign", index)));
+    // a failing partial derivative during a Jacobian query (own PRNG stream): the query must
+    // yield no Jacobian - a matrix with a column that was never written would differ between
+    // heap fill patterns
+    let mut r3 = Rng::new(mix(seed, "C10-derivative-failure", index));
+    if r3.chance(0.12) && sc.model.nparams > 0 {
+        let (trigger, action) = match kind {
+            ModelKind::Hand => (Trigger::Kind(CallKind::Deriv(r3.usize_in(0, sc.model.nparams - 1)), r3.below(4) as u32), FaultAction::Fail),
+            ModelKind::Builder => {
+                let cands: Vec<(usize, usize)> = sc.model.funcs.iter().enumerate().flat_map(|(j, f)| f.params.iter().map(move |k| (j, *k))).collect();
+                let (j, k) = *r3.pick(&cands);
+                (Trigger::Kind(CallKind::FuncDeriv(j, k), r3.below(4) as u32), fail_action(kind, &mut r3, sc.n()))
+            }
+        };
+        sc.faults.push(FaultRule { trigger, action, persist: if r3.chance(0.7) { Persist::Once } else { Persist::Forever } });
+    }
     maybe_marathon(&mut sc, seed, index);
     let is_marathon = sc.ops.iter().any(|o| matches!(o, Op::Marathon { .. }));
     // concurrent callers (own PRNG stream: every other scenario stays as it was)
